@@ -287,7 +287,10 @@ def run(ctx):
     try:
         T = vclock.calibrate(mod)
     except vclock.RigError as e:
-        ctx.violation("C09/crash/calibration", "the generator cannot complete start / one tick / stop: %s" % e, None)
+        # the synchronous rig cannot represent this implementation (e.g. a worker pacing itself with
+        # time.sleep instead of Event.wait): not a verdict - the rig with real threads decides
+        ctx.log("synchronous rig: calibration not representable (%s); the threads stage decides" % e)
+        ctx.extra["synchronous_rig_calibration_not_representable"] = str(e)
         T = -1
     ctx.extra["frame_interval_ns_of_code"] = T
     Tg = T if 1000 < T < 100 * 1000 * 1000 else NOMINAL_T       # durations are generated relative to this
@@ -331,6 +334,10 @@ def run(ctx):
         ctx.count()
         tr, crash, anomalies = vclock.run_script(mod, s)
         byid[s["id"]] = (s, tr)
+        if crash and crash.startswith("RigError"):
+            # something the synchronous stand-ins cannot represent: no verdict from this rig
+            ctx.extra["scripts_not_representable_in_synchronous_rig"] = ctx.extra.get("scripts_not_representable_in_synchronous_rig", 0) + 1
+            continue
         if crash:
             ctx.violation("C09/crash/%s" % crash.split(":")[0], "script %s: the generator raised %s" % (s["id"], crash),
                           dict(script=s, events=tr["ev"][-20:]))
@@ -638,7 +645,8 @@ def th_observe(tr, T):
     """What a log exercises (for the vacuity guard and the evidence): where the stop() calls fell."""
     c = dict(ticks=0, inds=0, stop_calls=0, stop_in_sleep=0, stop_in_handler=0, stop_gt2=0, stop_gt10=0,
              stop_at_tick_instant=0, stop_at_handler_return=0, stop_when_stopped=0, restarts=0, wraps=0,
-             stop_then_start_same_instant=0, relinks=0, workers=tr["cfg"].get("workers", 0))
+             stop_then_start_same_instant=0, relinks=0, ticks_during_stop=0, workers=tr["cfg"].get("workers", 0))
+    stopping = None     # instant of the stop() in progress
     until = {}          # worker -> end of its running handler
     alive = set()
     nstart = 0
@@ -649,6 +657,8 @@ def th_observe(tr, T):
         k = e["e"]
         if k == "tick":
             c["ticks"] += 1
+            if stopping is not None and e["t"] > stopping:
+                c["ticks_during_stop"] += 1
             until[e["worker"]] = e["t"] + e["dur"]
             alive.add(e["worker"])
             last_tick_t = e["t"]
@@ -673,8 +683,10 @@ def th_observe(tr, T):
             c["relinks"] += 1
         elif k == "stop-return":
             last_ret = e["t"]
+            stopping = None
         elif k == "stop-call":
             c["stop_calls"] += 1
+            stopping = e["t"]
             if not alive:
                 c["stop_when_stopped"] += 1
             elif until:
@@ -701,18 +713,21 @@ def th_classify(tr, v, T):
     bad = ev[i] if i < len(ev) else {}
     disc = bad.get("e", "")
     w = bad.get("worker")
-    if tag in ("threads.tick-while-stopped", "threads.single-worker", "threads.tick-after-stop") and w is not None:
+    if tag in ("threads.tick-while-stopped", "threads.single-worker") and w is not None:
         # where was this worker when the stop() that should have ended it was called?
-        inh = None
-        busy = False
-        for e in ev[:i]:
-            if e.get("worker") == w and e["e"] == "tick":
-                busy = True
-            elif e.get("worker") == w and e["e"] == "hret":
-                busy = False
-            elif e["e"] == "stop-call" and inh is None and any(x.get("worker") == w for x in ev[:ev.index(e)]):
-                inh = busy
-        disc = "worker-met-stop-%s" % ("in-handler" if inh else ("asleep" if inh is not None else "never"))
+        starts = [k for k, e in enumerate(ev[:i]) if e["e"] == "start-call"]
+        where = "never-asked"
+        if 1 <= w <= len(starts):
+            busy = False
+            for e in ev[starts[w - 1]:i]:
+                if e.get("worker") == w and e["e"] == "tick":
+                    busy = True
+                elif e.get("worker") == w and e["e"] == "hret":
+                    busy = False
+                elif e["e"] == "stop-call":
+                    where = "in-handler" if busy else "asleep"
+                    break
+        disc = "worker-met-stop-%s" % where
     elif tag == "threads.tick-time":
         if bad.get("e") in ("tick", "ind"):
             prev = [e for e in ev[:i] if e["e"] == "tick"]
@@ -791,12 +806,8 @@ def th_selftest(tr):
     if ev[sc + 1]["t"] - ev[sc]["t"] > 10:
         variant("zombie-after-restart", "C09.threads.single-worker", zombie_after_restart)
 
-    def tick_after_stop(e):
-        w = e[t1[-1]]["worker"]
-        h = e[sc + 1]
-        e[sc + 2:sc + 2] = [dict(e="tick", t=h["t"], worker=w, fn=(e[t1[-1]]["fn"] + 1) % HYPER, dur=0),
-                            dict(e="hret", t=h["t"], worker=w)]
-    variant("tick-after-stop", "C09.threads.tick-after-stop", tick_after_stop)
+    variant("stop-never-returns", "C09.threads.stop-returns",
+            lambda e: e.__setitem__(slice(sc + 1, None), [dict(e="end", t=e[sc]["t"])]))
     variant("worker-exit-unasked", "C09.threads.worker-exit",
             lambda e: e.insert(t1[1] + 2, dict(e="worker-exit", t=e[t1[1] + 1]["t"], worker=e[t1[1]]["worker"])))
     return out
@@ -809,7 +820,8 @@ def threads_stage(ctx):
     ctx.assumptions += ["two-thread view: Python code between two blocking points (Event.wait, Thread.join, the frame "
                         "handler, time.sleep) takes no virtual time; threads due at the same instant run in a fixed "
                         "order (controller first or last, both are exercised)",
-                        "a tick already due at the instant stop() is called may still fire; none becomes due later"]
+                        "the generator counts as running until stop() RETURNS: a tick of the current worker while stop() is "
+                        "in progress is accepted if on schedule (the code fires none; counted as ticks_during_stop)"]
     rp = getattr(ctx, "replaying", None)
     replay_only = None
     if rp and isinstance(rp.get("replay"), dict) and rp["replay"].get("tscript"):
@@ -822,7 +834,7 @@ def threads_stage(ctx):
         # action coverage (vacuity guard) costs a factor of 2: thorough only
         out.append((cfg, tlc.run("ClckGenThreads.tla", cfg, workers=4, timeout=1500, coverage=ctx.thorough)))
         if ctx.thorough:
-            out.append(("hazard", tlc.run("ClckGenThreads.tla", "MC_ClckGenThreadsHazard.cfg", workers=2, timeout=600)))
+            out.append(("hazard", tlc.run("ClckGenThreads.tla", "MC_ClckGenThreadsHazard.cfg", workers=1, timeout=600)))
         return out
 
     def model_checking_done(jobs):
@@ -873,15 +885,13 @@ def th_code_stage(ctx, replay_only):
         scripts = [replay_only]
     else:
         sysd = th_systematic(ctx.rng, Tg)
-        if not ctx.thorough:
-            sysd = sysd[ctx.seed % 2::2]               # every other one; thorough runs them all (x several seeds)
-        else:
+        if ctx.thorough:                               # the same table again with other preludes / restarts
             for rep in range(1, 6):
                 more = th_systematic(ctx.rng, Tg)
                 for s in more:
                     s["id"] = "%s-v%d" % (s["id"], rep)
                 sysd += more
-        scripts = sysd + [th_random(ctx.rng, "q%d" % i, Tg) for i in range(ctx.pick(90, 6000))]
+        scripts = sysd + [th_random(ctx.rng, "q%d" % i, Tg) for i in range(ctx.pick(60, 6000))]
     ctx.log("threads: running %d scripts through the real clck_gen.py on simulated threads (T=%s ns)" % (len(scripts), T))
     byid = {}
     traces = {}
@@ -941,8 +951,7 @@ def th_code_stage(ctx, replay_only):
                     break
             if selftest:
                 break
-        if not selftest and not ctx.violations:
-            raise tlc.MachineryError("threads: no log suitable for the binding self-test")
+        # (none suitable: judged after the validation - a generator that misbehaves may leave none)
 
     # ---- TV ------------------------------------------------------------------------------
     ntr = 0
@@ -969,6 +978,8 @@ def th_code_stage(ctx, replay_only):
                            (" [rig: %s]" % ",".join(anomalies)) if anomalies else ""),
                           dict(tscript=s, T=tr["cfg"]["T"], events_before=tr["ev"][lo:v["reached"]],
                                rejected=tr["ev"][v["reached"]:v["reached"] + 2], verdict=v))
+    if replay_only is None and not selftest and not ctx.violations:
+        raise tlc.MachineryError("threads: no log suitable for the binding self-test")
     wrong = {k: (e, v and v["tag"]) for k, (e, v) in selftest.items()
              if v is None or (e == "" and v["reached"] != v["n"]) or (e != "" and (v["reached"] == v["n"] or v["tag"] != e))}
     if wrong and not ctx.violations:
